@@ -187,6 +187,22 @@ PROPS["C06"] = dict(
     thorough=dict(shards=16, timeout=2400),
 )
 
+PROPS["C04"] = dict(
+    pkg="c04", level="exploration", design_ref="DESIGN.md section 3, C04",
+    technique="enumerated mutations of valid streams (every truncation, deletion, alphabet substitution/insertion, grammar-aware count/length/index replacement) + rapid random bytes, decoded in worker processes with recover, allocation metering and death attribution",
+    level_text=("For every corpus stream (serialization values, RPC requests and responses, JSON-RPC messages) all single-step mutations are enumerated and each mutant is decoded through "
+                "Unmarshal, a reader, Service.Handle, the client codec and the JSON-RPC codecs into rotating (quick) or all (thorough) destination types in both modes. The decode "
+                "runs in a worker process with a 4 GiB address-space limit: a panic is recovered and reported, the bytes allocated (runtime/metrics) must stay under 1 MiB + 256 x "
+                "input length, a hang trips the watchdog, and when the worker dies the input recorded in its side file is reported and a new worker continues behind it."),
+    level_note="No legitimate decode comes within two orders of magnitude of the allocation bound; recursion depth is exercised up to a few hundred levels; inputs longer than a few hundred bytes are not generated.",
+    rule=("mutations: per (entry, corpus stream) every truncation, single-byte deletion, substitution and insertion over a 48-byte alphabet, adjacent swaps, number replacements by hostile "
+          "constants and structural repeats; random-bytes: rapid-drawn strings of up to 64 bytes biased to the tag alphabet. Non-trivial = a mutation set of a corpus stream (counted per set) or a "
+          "random input of >= 2 bytes starting with a legal tag; the number of individual decodes is reported as classes['decodes']."),
+    assumptions=["a decode that returns any value or error without panicking, dying, hanging or over-allocating is accepted: this property does not judge values"],
+    quick=dict(shards=8, timeout=900),
+    thorough=dict(shards=16, timeout=3000),
+)
+
 # properties not claimed yet (kept current as checks land)
 _ALL = ["C%02d" % i for i in range(1, 21)]
 NOT_APPLICABLE = [dict(property_id=p, reason="check not built yet in this revision (planned in DESIGN.md section 3); not a limit of the technique")
